@@ -399,6 +399,16 @@ func c10(tier string, args []string) int {
 					if !isInit && (string(after.Rounds()[round2]) != b2 || len(changedProtected(withSecond, after)) > 0) {
 						r.Violation("C10/cross-round-replay/"+g.Event, fmt.Sprintf("the recorded %s of %s (made for round %s) re-posted under the id of another round (in %s) took effect there (error: %v)", g.Event, g.SenderAddr, rec.Round[:8], withSecond.RoundState(round2), err), map[string]interface{}{"n": nt.n, "t": nt.t, "base": bs.String(), "recorded_offset": j, "event": g.Event})
 					}
+					// (2e) the same message once more, unchanged, under its own round and event name, in
+					// every later state: it was made for the step it took effect in, not for this one
+					{
+						err, after, _ := lab.Step(bs.Snap, g)
+						evals++
+						classes["again|"+g.Event] = true
+						if ch := changedProtected(bs.Snap, after); len(ch) > 0 {
+							r.Violation("C10/same-message-again/"+g.Event, fmt.Sprintf("in %s the recorded %s of %s (position %d of the log), posted once more unchanged, took effect again: %v (error: %v)", bs, g.Event, g.SenderAddr, j, ch, err), map[string]interface{}{"n": nt.n, "t": nt.t, "base": bs.String(), "recorded_offset": j, "event": g.Event})
+						}
+					}
 					// (2b) cross-step: unchanged data+signature+round, other event name
 					for _, ev := range stepEvents {
 						if ev == g.Event {
@@ -429,7 +439,7 @@ func c10(tier string, args []string) int {
 		cl = cl[:12]
 	}
 	r.Set("class_examples", cl)
-	r.Set("rule", "(1) for every base state, every genuine contribution still ahead in the log (participant P awaited) is re-sent by every other participant S with S's name and valid signature: P's record in the round must not change; (2) every recorded message is re-posted unchanged under another round's id and under every other event name: no effect allowed. distinct = (kind, state, event) classes")
+	r.Set("rule", "(1) for every base state, every genuine contribution still ahead in the log (participant P awaited) is re-sent by every other participant S with S's name and valid signature: P's record in the round must not change; (2) every recorded message is re-posted unchanged under another round's id, under every other event name, and once more as it is in every later state: no effect allowed. distinct = (kind, state, event) classes")
 	var _ = fsm.State("")
 	var _ storage.Message
 	return finish(r)
